@@ -150,6 +150,9 @@ def run(check, ctx):
     for r in rows():
         run_row(check, repo, r)
     c01_extra.run(check, ctx, labels)
+    # the native Poly1305 (tag of ChaCha20-Poly1305) on a boundary table of limb values
+    from . import c_poly
+    c_poly.poly_tables(check, ctx)
     check.undecided.append("equality of the expected tag with the mode's "
                            "specification for every input (GHASH, CBC-MAC, "
-                           "OMAC, S2V, Poly1305, OCB arithmetic)")
+                           "OMAC, S2V, OCB arithmetic; Poly1305 beyond the boundary table)")
